@@ -2572,6 +2572,109 @@ pub(crate) mod verif_hooks {
         }
     }
 
+    fn plain_host_connection_config() -> super::HostConnectionConfig {
+        super::HostConnectionConfig {
+            local_ip_address: None,
+            shard_aware_local_port_range: crate::routing::ShardAwarePortRange::EPHEMERAL_PORT_RANGE,
+            compression: None,
+            tcp_socket_options: Default::default(),
+            timestamp_generator: None,
+            event_sender: None,
+            tls_config: None,
+            connect_timeout: std::time::Duration::from_secs(5),
+            default_consistency: Default::default(),
+            authenticator: None,
+            address_translator: None,
+            write_coalescing_delay: None,
+            keepalive_interval: None,
+            keepalive_timeout: None,
+            tablet_sender: None,
+            identity: Default::default(),
+        }
+    }
+
+    fn statement_with_metadata(
+        use_cached: bool,
+        col_count: usize,
+        id: Option<Vec<u8>>,
+    ) -> crate::statement::prepared::PreparedStatement {
+        use scylla_cql::frame::response::result::{PreparedMetadata, ResultMetadata};
+        let mut stmt = crate::statement::prepared::verif_hooks::new_statement(
+            PreparedMetadata {
+                flags: 0,
+                col_count: 0,
+                pk_indexes: Vec::new(),
+                col_specs: Vec::new(),
+            },
+            std::sync::Arc::new(ResultMetadata::verif_new(id, col_count)),
+        );
+        stmt.set_use_cached_result_metadata(use_cached);
+        stmt
+    }
+
+    /// `Connection::calculate_cached_metadata_params` on a connection (to a local listener that never answers) whose negotiated
+    /// features say `ext`; returns (skip_metadata, cached metadata handed to the decoder, result metadata id put into EXECUTE).
+    pub(crate) fn metadata_params(
+        ext: bool,
+        use_cached: bool,
+        col_count: usize,
+        id: Option<Vec<u8>>,
+    ) -> (bool, bool, Option<Vec<u8>>) {
+        let rt = tokio::runtime::Builder::new_current_thread()
+            .enable_all()
+            .build()
+            .unwrap();
+        rt.block_on(async {
+            let listener = tokio::net::TcpListener::bind("127.0.0.1:0").await.unwrap();
+            let addr = listener.local_addr().unwrap();
+            let (mut conn, _errors) =
+                super::Connection::new(addr, None, plain_host_connection_config())
+                    .await
+                    .unwrap();
+            let mut features = super::ConnectionFeatures::default();
+            features.protocol_features.scylla_metadata_id_supported = ext;
+            conn.set_features(features);
+            let stmt = statement_with_metadata(use_cached, col_count, id);
+            let md = stmt.get_current_result_metadata();
+            let p = conn.calculate_cached_metadata_params(&stmt, &md);
+            (
+                p.skip_metadata,
+                p.cached_metadata.is_some(),
+                p.result_metadata_id.map(|x| x.to_vec()),
+            )
+        })
+    }
+
+    /// `Connection::handle_result_metadata_new_id` for a ROWS response carrying `new`; returns the statement's current metadata afterwards.
+    pub(crate) fn metadata_after_rows(
+        current: (usize, Option<Vec<u8>>),
+        new: (usize, Option<Vec<u8>>),
+    ) -> (usize, Option<Vec<u8>>) {
+        use scylla_cql::frame::request::query::PagingStateResponse;
+        use scylla_cql::frame::response::ResponseWithDeserializedMetadataV2 as ResponseWithDeserializedMetadata;
+        use scylla_cql::frame::response::result::{
+            DeserializedMetadataAndRawRows, ResultMetadata, ResultWithDeserializedMetadata,
+        };
+        let stmt = statement_with_metadata(false, current.0, current.1);
+        let rows = DeserializedMetadataAndRawRows::new_for_test(
+            ResultMetadata::verif_new(new.1, new.0),
+            0,
+            bytes::Bytes::new(),
+        );
+        let response = crate::response::QueryResponse {
+            response: ResponseWithDeserializedMetadata::Result(ResultWithDeserializedMetadata::Rows((
+                rows,
+                PagingStateResponse::NoMorePages,
+            ))),
+            tracing_id: None,
+            warnings: Vec::new(),
+            custom_payload: None,
+        };
+        super::Connection::handle_result_metadata_new_id(&stmt, &response);
+        let md = stmt.get_current_result_metadata();
+        (md.col_count(), md.id().map(|x| x.to_vec()))
+    }
+
     pub(crate) fn verify_keyspace_name(
         name: String,
         case_sensitive: bool,
